@@ -45,6 +45,8 @@ macro_rules! align_markers {
 align_markers!(
     A1 = 1, A2 = 2, A4 = 4, A8 = 8, A16 = 16, A32 = 32, A64 = 64, A128 = 128, A256 = 256,
     A512 = 512, A1024 = 1024, A2048 = 2048, A4096 = 4096,
+    // beyond the page size: nothing in the crate may clamp or assume a maximal alignment
+    A8192 = 8192, A16384 = 16384, A65536 = 65536,
 );
 
 trait Payload: Trace + Sized + 'static {
@@ -506,6 +508,26 @@ struct Meas {
     holder: Option<(HolderInfo, lp::Block, Option<lp::Block>)>,
 }
 
+/// Header alignment measured in `main` (align_of::<CcBox<()>>()).
+static HALIGN: std::sync::atomic::AtomicUsize = std::sync::atomic::AtomicUsize::new(0);
+
+/// What the GLOBAL ALLOCATOR was asked for and what it returned: the REQUESTED alignment (the log
+/// records `layout.align()` as passed to `alloc`) must be max(halign, talign) as `Layout.ccbox`
+/// predicts - whatever the magnitude of talign - and the returned block must honour it.
+fn check_requested_align(blk: &lp::Block, talign: usize, bad: &mut Vec<String>) {
+    let halign = HALIGN.load(std::sync::atomic::Ordering::Relaxed);
+    let want = halign.max(talign);
+    if blk.align != want {
+        bad.push(format!("requested_align_{}_expected_max(halign={},talign={})={}", blk.align, halign, talign, want));
+    }
+    if blk.align == 0 || blk.ptr % blk.align != 0 {
+        bad.push(format!("block_addr%requested_align({})={}", blk.align, if blk.align == 0 { 0 } else { blk.ptr % blk.align }));
+    }
+    if blk.ptr % want != 0 {
+        bad.push(format!("block_addr%max(halign,talign)({})={}", want, blk.ptr % want));
+    }
+}
+
 fn check_addrs(o: &dyn Obj, when: &str, expect: usize, handles: &[usize], bad: &mut Vec<String>) {
     for &i in handles {
         let [d, a, b] = o.addrs(i);
@@ -557,6 +579,7 @@ fn one_route(o: &mut dyn Obj, release: Release, weak: WeakMode, pat: u8, bad: &m
     if ablk.size == 0 {
         bad.push("box_addr_not_the_allocated_ptr".into());
     }
+    check_requested_align(&ablk, talign, bad);
     if (ablk.size, ablk.align) != decl {
         bad.push(format!("alloc_layout_{}x{}_differs_from_size_of_{}x{}", ablk.size, ablk.align, decl.0, decl.1));
     }
@@ -829,6 +852,7 @@ fn new_cyclic_route(o: &mut dyn Obj, panics: bool, pat: u8, bad: &mut Vec<String
             m.box_size = b.size;
             m.box_align = b.align;
             m.side_allocs = s.is_some() as usize;
+            check_requested_align(&b, o.talign(), bad);
             if (b.size, b.align) != decl || o.box_layout(cc) != decl {
                 bad.push("new_cyclic_layout_differs_from_size_of".into());
             }
@@ -886,6 +910,7 @@ fn new_cyclic_route(o: &mut dyn Obj, panics: bool, pat: u8, bad: &mut Vec<String
                 Some(b) => {
                     m.box_size = b.size;
                     m.box_align = b.align;
+                    check_requested_align(b, o.talign(), bad);
                     let n = fr.iter().filter(|x| x.ptr == b.ptr).count();
                     if n != 1 {
                         bad.push(format!("box_freed_{n}_times_after_panic"));
@@ -1013,6 +1038,19 @@ macro_rules! grid {
 
 fn main() {
     std::panic::set_hook(Box::new(|_| {})); // the panicking new_cyclic closures are expected
+    // Payloads of up to 128 KiB aligned to 64 KiB are passed BY VALUE through Cc::new / try_unwrap /
+    // new_cyclic (several aligned copies per frame in debug builds): run on a generous stack.
+    let code = std::thread::Builder::new()
+        .name("layout-probe".into())
+        .stack_size(512 << 20)
+        .spawn(real_main)
+        .expect("cannot spawn the probe thread")
+        .join()
+        .unwrap_or(3);
+    std::process::exit(code);
+}
+
+fn real_main() -> i32 {
     let args: Vec<String> = std::env::args().collect();
     let small = args.iter().any(|a| a == "--small");
 
@@ -1025,6 +1063,7 @@ fn main() {
         (r as *const () as usize) - (verif::box_addr(&unit) as usize)
     };
     drop(unit);
+    HALIGN.store(halign, std::sync::atomic::Ordering::Relaxed);
 
     let mut ctx = Ctx {
         hsize,
@@ -1047,8 +1086,8 @@ fn main() {
     .unwrap();
 
     if small {
-        grid!(probe, Plain, ctx; [0, 1, 9, 4096]; [A1, A8, A64, A4096]);
-        grid!(probe, Linked, ctx; [0, 9]; [A1, A4096]);
+        grid!(probe, Plain, ctx; [0, 1, 9, 4096]; [A1, A8, A64, A4096, A65536]);
+        grid!(probe, Linked, ctx; [0, 9]; [A1, A4096, A65536]);
     } else {
         grid!(probe, Plain, ctx;
               [0, 1, 2, 3, 7, 8, 9, 15, 16, 24, 31, 33, 100, 255, 1000, 4095, 4096];
@@ -1056,6 +1095,12 @@ fn main() {
         grid!(probe, Linked, ctx;
               [0, 1, 8, 9, 100, 4096];
               [A1, A4, A8, A16, A64, A512, A4096]);
+        // alignments above 4096 (zero-sized, one unit, two units of the alignment)
+        grid!(probe, Plain, ctx; [0, 1, 100, 4096]; [A8192, A16384, A65536]);
+        grid!(probe, Plain, ctx; [10000]; [A8192]);
+        grid!(probe, Plain, ctx; [20000]; [A16384]);
+        grid!(probe, Plain, ctx; [70000]; [A65536]);
+        grid!(probe, Linked, ctx; [0, 9]; [A8192, A16384, A65536]);
     }
 
     // nothing of what the probe allocated through the crate may survive
@@ -1075,7 +1120,5 @@ fn main() {
     )
     .unwrap();
     ctx.out.flush().unwrap();
-    if !ok {
-        std::process::exit(1);
-    }
+    (!ok) as i32
 }
